@@ -30,13 +30,14 @@ def gen_cases(ctx):
                                     continue
                                 if n is not None and n >= 4 and (T not in (1, 3) or rk == 'notifbatch'):
                                     continue
-                                for extra in ({}, dict(in_except=True), dict(tracer_kinds=['partial', 'full', 'chain'][:T])):
+                                for extra in ({}, dict(in_except=True), dict(tracer_kinds=['partial', 'full', 'chain'][:T]), dict(tracer_kinds=['instance', 'late', 'full'][:T]), dict(tracer_kinds=['late', 'instance', 'chain'][:T])):
                                   if extra and (n not in (None, 1) or via != 'call' or T == 0):
                                       continue
                                   yield dict(extra, kind=kind, request=rk, via=via, tracers=T, ctx=tctx, c19=True,
                                            drop=['code_listed2', 'level_listed2', 'exc_listed2', 'exc_sub'],
                                            client_strategy=None if n is None else dict(
                                                attempts=n, codes='one', excs=excs, backoff=dict(family='periodic', interval=0)))
+    yield from gen_threads(ctx)
 
 
 def viol(rec, cfg, choices, sig, expected, observed):
@@ -111,7 +112,80 @@ def check_execution(cfg, choices, obs, rec):
     return (A, T, tuple(sorted({n for n in names})))
 
 
+def gen_threads(ctx):
+    """E5: one synchronous client with tracers shared by two threads, each making one call; a thread switch is possible at
+    every source line of pjrpc, schedules with <= 1 (quick) / 2 (thorough) preemptions"""
+    K = 16
+    for T in (1, 2):
+        for outcomes in (('ok', 'ok'), ('ok', 'exc'), ('exc', 'exc'), ('err', 'ok')):
+            budget = ctx.pick(1, 2)
+            for k in range(K):
+                yield dict(part='threads', tracers=T, outcomes=outcomes, budget=budget, shard=(k, K, 1))
+
+
+def run_threads_case(cfg, rec):
+    import os
+    import json as _json
+    import pjrpc
+    from mc.harness.client import make_client
+    from mc.threadsched import run_threads
+    pj = os.path.dirname(os.path.abspath(pjrpc.__file__)) + os.sep
+    sched = 0
+    inter = 0
+
+    def once(env):
+        tlog = []
+        tracers = [cr.LogTracer(i, tlog) for i in range(cfg['tracers'])]
+
+        def responder(text, is_notif, kw):
+            doc = _json.loads(text)
+            which = cfg['outcomes'][doc['params'][0]]
+            if which == 'exc':
+                raise cr.E1('thread %d' % doc['params'][0])
+            if which == 'err':
+                return _json.dumps(dict(jsonrpc='2.0', id=doc['id'], error=dict(code=cr.C1, message='thread %d' % doc['params'][0])))
+            return _json.dumps(dict(jsonrpc='2.0', id=doc['id'], result=doc['params'][0]))
+        client = make_client('sync', responder, tracers=tracers)
+
+        def body(i):
+            return lambda: client.call('m', i)
+        res, tr = run_threads([body(0), body(1)], env, [pj])
+        return tlog, res, tr
+    for choices, (tlog, res, tr) in explore_choices(once, budget=cfg['budget'], shard=tuple(cfg['shard']), max_exec=400000):
+        sched += 1
+        rec.transitions += tr.points
+        inter += 1 if tr.interleaved else 0
+        c = dict(cfg=cfg, choices=list(choices))
+        for i in (0, 1):
+            want_kind = {'ok': 'end', 'err': 'end', 'exc': 'error'}[cfg['outcomes'][i]]
+            mine = [(idx, what) for idx, what, tctx, req, payload in tlog if req.params and list(req.params)[0] == i]
+            want = [(t, 'begin') for t in range(cfg['tracers'])] + [(t, want_kind) for t in range(cfg['tracers'])]
+            if mine != want:
+                rec.violation('C19:threads:events of one thread\'s attempt are lost / duplicated when another thread uses the client at the same time',
+                              c, expected=want, observed=mine)
+                break
+            k, v = res[i]
+            ok = (k == 'ok' and v == i) if cfg['outcomes'][i] == 'ok' else (k == 'exc')
+            if not ok:
+                rec.violation('C19:threads:result / exception of a call differs under a thread schedule', c, expected=cfg['outcomes'][i], observed=(k, repr(v)))
+                break
+        # one attempt's events share one trace context, different attempts have different ones
+        ctxs = {}
+        for idx, what, tctx, req, payload in tlog:
+            ctxs.setdefault(list(req.params)[0], set()).add(id(tctx))
+        if any(len(v) != 1 for v in ctxs.values()) or (len(ctxs) == 2 and len(set.union(*ctxs.values())) != 2):
+            rec.violation('C19:threads:trace contexts mixed up between concurrent attempts', c, expected='one context per attempt', observed={k: len(v) for k, v in ctxs.items()})
+    rec.traces += sched
+    rec.states += sched
+    rec.nontrivial_n += inter
+    rec.counters['thread schedules'] += sched
+    rec.counters['thread schedules that interleaved'] += inter
+    return (sched, inter)
+
+
 def run_case(cfg, rec):
+    if cfg.get('part') == 'threads':
+        return run_threads_case(cfg, rec)
     leaves = 0
     summary = []
     for choices, obs in explore_choices(lambda env: cr.execute(cfg, env), max_exec=300000):
@@ -146,12 +220,18 @@ def run(ctx):
     ctx.guard('every outcome kind was exercised', all(c.get('outcome ' + n, 0) > 0 for n in
                                                      ('ok', 'code_listed', 'exc_listed', 'notjson', 'notresp', 'identity', 'base', 'unexpected_body')), dict(c))
     ctx.guard('multi-attempt executions traced', ctx.rec.nontrivial_n > 100, ctx.rec.nontrivial_n)
+    ctx.guard('threads really interleaved inside the client', c.get('thread schedules that interleaved', 0) > 50, dict(c))
 
 
 def replay(doc):
     from mc.core import Env, Recorder, jdump
     rec = Recorder()
     cfg, choices = doc['case']['cfg'], doc['case']['choices']
+    if cfg.get('part') == 'threads':
+        cfg = dict(cfg, shard=(0, 1, 1), outcomes=tuple(cfg['outcomes']))
+        run_threads_case(cfg, rec)
+        print('replayed (all schedules of the configuration): %d violation(s)' % len(rec.violations))
+        return 1 if rec.violations else 0
     obs = cr.execute(cfg, Env(tuple(choices)))
     check_execution(cfg, choices, obs, rec)
     print('script:', [n for n, _ in obs['script']], 'events:', [(i, w) for i, w, _, _, _ in obs['events']])
